@@ -90,3 +90,16 @@ func membersQuery(types, plain []string, asVars, inc bool) string {
 	b.WriteString(" }")
 	return b.String()
 }
+
+// historyTypeQuery: one fixed-shape __type(name:) operation; only the name
+// differs between two uses (inline literal or the value of $n), so all uses
+// normalise to the same operation and share one cached plan.
+func historyTypeQuery(name string, asVar bool) (query, variables string) {
+	const sel = "{ kind name fields(includeDeprecated: true) { name args(includeDeprecated: true) { name } } inputFields(includeDeprecated: true) { name } enumValues(includeDeprecated: true) { name } }"
+	if asVar {
+		return "query Again($n: String!) { __type(name: $n) " + sel + " }", fmt.Sprintf(`{"n":%q}`, name)
+	}
+	return fmt.Sprintf("query Again { __type(name: %q) ", name) + sel + " }", ""
+}
+
+const historySchemaQuery = "query Between { __schema { queryType { name } types { name } } }"
